@@ -394,6 +394,47 @@ pub fn cases_for(prop: &str, tier: &str, seed: u64, shard: (usize, usize)) -> (V
                 cases.push(Case { id: format!("rw{}x{}", shard.0, i), family: format!("rewrite:{}", kind), schema: si_idx, op: "rewrite".into(),
                     doc: Some(text), extra, note: kind.to_string() });
             }
+            // order-sensitive corpus, every document under every order-changing rewrite (not sampled):
+            // one variable at two positions of the same type that differ only in the location
+            // default, the variable sites, arguments in several orders
+            {
+                let synth = pool.iter().position(|s| s.name == "synthetic").unwrap();
+                let mut corpus: Vec<GDoc> = vec![];
+                for vk in 0..4 {
+                    for l in 0..4 {
+                        for (d1, d2) in [(false, true), (true, false)] {
+                            for split in [false, true] {
+                                if let Some(d) = crate::families::two_usages_case("Int", vk, 0, l, d1, l, d2, split) {
+                                    corpus.push(d);
+                                }
+                            }
+                        }
+                    }
+                }
+                corpus.extend(crate::families::variable_site_cases());
+                let mut j = 0usize;
+                for gdoc in corpus {
+                    for kind in ["perm-selections", "perm-arguments", "perm-definitions", "inline-spread", "wrap-inline"] {
+                        j += 1;
+                        if j % shard.1 != shard.0 {
+                            continue;
+                        }
+                        let mut alt = None;
+                        for _ in 0..8 {
+                            if let Some(g2) = crate::rewrite::rewrite_doc(&gdoc, kind, &mut rng) {
+                                if g2 != gdoc {
+                                    alt = Some(g2);
+                                    break;
+                                }
+                            }
+                        }
+                        if let Some(g2) = alt {
+                            cases.push(Case { id: format!("oc{}x{}", shard.0, j), family: format!("order-corpus:{}", kind), schema: synth, op: "rewrite".into(),
+                                doc: Some(gdoc.print()), extra: vec![format!("(kind {})", kind), format!("(altdoc {})", crate::sx::hex(g2.print().as_bytes()))], note: kind.to_string() });
+                        }
+                    }
+                }
+            }
         }
         "C17" => {
             let n = budget(tier, 1200, 30000) / shard.1;
@@ -646,7 +687,7 @@ pub fn run_impl(c: &Case, si: &SchemaInfo, doc: Option<&q::Document>) -> Vec<Str
             }
             crate::op_validate::run_purity(&si.doc, &docs, &crate::op_validate::parse_plan(&c.extra[0]))
         }
-        "ext" => crate::op_misc::run_ext(&si.doc, c.extra[0].parse().unwrap()),
+        "ext" => crate::op_misc::run_ext_with_history(&si.doc, c.extra[0].parse().unwrap()),
         "validate13" => crate::op_validate::run_validate13(&si.doc, doc.unwrap(), &crate::op_validate::parse_plan(&c.extra[0])),
         "validate" => crate::op_validate::run_validate(&si.doc, doc.unwrap(), &crate::op_validate::parse_plan(&c.extra[0])),
         _ => vec!["NOIMPL".to_string()],
